@@ -14,6 +14,21 @@ zerocopy::cryptocorrosion_derive_traits! {
     }
 }
 
+/// The 64-bit word view of the storage is the little-endian packing of its 32-bit words on
+/// every target (a plain reinterpretation of the union would follow the target's byte order).
+#[inline(always)]
+fn q_of_d(d: [u32; 4]) -> [u64; 2] {
+    [
+        u64::from(d[0]) | (u64::from(d[1]) << 32),
+        u64::from(d[2]) | (u64::from(d[3]) << 32),
+    ]
+}
+
+#[inline(always)]
+fn d_of_q(q: [u64; 2]) -> [u32; 4] {
+    [q[0] as u32, (q[0] >> 32) as u32, q[1] as u32, (q[1] >> 32) as u32]
+}
+
 impl From<[u32; 4]> for vec128_storage {
     #[inline(always)]
     fn from(d: [u32; 4]) -> Self {
@@ -29,13 +44,13 @@ impl From<vec128_storage> for [u32; 4] {
 impl From<[u64; 2]> for vec128_storage {
     #[inline(always)]
     fn from(q: [u64; 2]) -> Self {
-        Self { q }
+        Self { d: d_of_q(q) }
     }
 }
 impl From<vec128_storage> for [u64; 2] {
     #[inline(always)]
     fn from(q: vec128_storage) -> Self {
-        unsafe { q.q }
+        q_of_d(unsafe { q.d })
     }
 }
 impl Default for vec128_storage {
@@ -137,9 +152,9 @@ where
     F: Fn(u64) -> u64,
 {
     let t: vec128_storage = t.into();
-    let q = unsafe { t.q };
+    let q = q_of_d(unsafe { t.d });
     let q = vec128_storage {
-        q: [f(q[0]), f(q[1])],
+        d: d_of_q([f(q[0]), f(q[1])]),
     };
     unsafe { T::unpack(q) }
 }
@@ -152,10 +167,10 @@ where
 {
     let a: vec128_storage = a.into();
     let b: vec128_storage = b.into();
-    let ao = unsafe { a.q };
-    let bo = unsafe { b.q };
+    let ao = q_of_d(unsafe { a.d });
+    let bo = q_of_d(unsafe { b.d });
     let q = vec128_storage {
-        q: [f(ao[0], bo[0]), f(ao[1], bo[1])],
+        d: d_of_q([f(ao[0], bo[0]), f(ao[1], bo[1])]),
     };
     unsafe { T::unpack(q) }
 }
@@ -177,8 +192,10 @@ where
     F: Fn(u128) -> u128,
 {
     let a: vec128_storage = a.into();
-    let ao = o_of_q(unsafe { a.q });
-    let o = vec128_storage { q: q_of_o(f(ao)) };
+    let ao = o_of_q(q_of_d(unsafe { a.d }));
+    let o = vec128_storage {
+        d: d_of_q(q_of_o(f(ao))),
+    };
     unsafe { T::unpack(o) }
 }
 
@@ -190,10 +207,10 @@ where
 {
     let a: vec128_storage = a.into();
     let b: vec128_storage = b.into();
-    let ao = o_of_q(unsafe { a.q });
-    let bo = o_of_q(unsafe { b.q });
+    let ao = o_of_q(q_of_d(unsafe { a.d }));
+    let bo = o_of_q(q_of_d(unsafe { b.d }));
     let o = vec128_storage {
-        q: q_of_o(f(ao, bo)),
+        d: d_of_q(q_of_o(f(ao, bo))),
     };
     unsafe { T::unpack(o) }
 }
@@ -483,13 +500,15 @@ impl From<u32x4_generic> for vec128_storage {
 impl From<u64x2_generic> for vec128_storage {
     #[inline(always)]
     fn from(q: u64x2_generic) -> Self {
-        Self { q: q.0 }
+        Self { d: d_of_q(q.0) }
     }
 }
 impl From<u128x1_generic> for vec128_storage {
     #[inline(always)]
     fn from(o: u128x1_generic) -> Self {
-        Self { q: q_of_o(o.0[0]) }
+        Self {
+            d: d_of_q(q_of_o(o.0[0])),
+        }
     }
 }
 
@@ -502,13 +521,13 @@ impl Store<vec128_storage> for u32x4_generic {
 impl Store<vec128_storage> for u64x2_generic {
     #[inline(always)]
     unsafe fn unpack(s: vec128_storage) -> Self {
-        Self(s.q)
+        Self(q_of_d(s.d))
     }
 }
 impl Store<vec128_storage> for u128x1_generic {
     #[inline(always)]
     unsafe fn unpack(s: vec128_storage) -> Self {
-        Self([o_of_q(s.q); 1])
+        Self([o_of_q(q_of_d(s.d)); 1])
     }
 }
 
